@@ -37,7 +37,7 @@ def scratch():
 
         d = tempfile.mkdtemp(prefix="verif_")
         os.environ["VERIF_SCRATCH"] = d
-    sub = os.path.join(d, str(os.getpid()))
+    sub = os.environ.get("VERIF_SCRATCH_SUB") or os.path.join(d, str(os.getpid()))
     os.makedirs(sub, exist_ok=True)
     return sub
 
@@ -103,8 +103,101 @@ def _classify_exception(exc):
     return where
 
 
+class CaseTimeout(BaseException):
+    pass
+
+
+def _alarm(signum, frame):
+    raise CaseTimeout()
+
+
+def _note_timeout(mod, case):
+    try:
+        os.makedirs(os.path.join(VERIF, "out"), exist_ok=True)
+        with open(os.path.join(VERIF, "out", f"timeout-{mod.ID}-{digest_of(case)}.json"), "w") as f:
+            json.dump({"property": mod.ID, "case": case}, f)
+    except OSError:
+        pass
+
+
+def _isolated_run(mod, case, cap):
+    """Run one case in a forked child so that a solver call that never returns can be killed.
+    The child shares the parent's scratch directory."""
+    import pickle
+    import select
+    import signal
+
+    sub = scratch()
+    r, w = os.pipe()
+    pid = os.fork()
+    if pid == 0:
+        code = 0
+        try:
+            os.close(r)
+            os.environ["VERIF_SCRATCH_SUB"] = sub
+            res, err = _safe_run(mod, case)
+            data = pickle.dumps((res.violations, res.labels, res.nontrivial, res.digest, res.info, err))
+            with os.fdopen(w, "wb") as f:
+                f.write(data)
+        except BaseException:  # noqa
+            code = 3
+        finally:
+            os._exit(code)
+    os.close(w)
+    chunks = []
+    deadline = time.time() + cap
+    timed_out = False
+    with os.fdopen(r, "rb", buffering=0) as f:
+        while True:
+            left = deadline - time.time()
+            if left <= 0:
+                timed_out = True
+                break
+            ready, _, _ = select.select([f], [], [], min(left, 5.0))
+            if ready:
+                b = f.read(1 << 16)
+                if not b:
+                    break
+                chunks.append(b)
+    if timed_out:
+        try:
+            os.kill(pid, signal.SIGKILL)
+        except OSError:
+            pass
+    os.waitpid(pid, 0)
+    if timed_out:
+        _note_timeout(mod, case)
+        return Result([], ["case-timeout"], False), None
+    try:
+        viol, labels, nontrivial, dg, info, err = pickle.loads(b"".join(chunks))
+    except Exception as e:  # noqa
+        return Result([], ["harness-error"], False), f"isolated child died without a result ({e})"
+    return Result(viol, labels, nontrivial, dg, info), err
+
+
 def safe_run(mod, case):
-    """run_case with exception bucketing.  Returns (Result, harness_error_text|None)."""
+    """run_case with exception bucketing.  Returns (Result, harness_error_text|None).
+    A case that exceeds the per-case wall-clock cap is counted as inconclusive (label `case-timeout`),
+    never as a violation.  Modules with ISOLATE = True run every case in a forked child (solver calls
+    cannot be interrupted from Python)."""
+    import signal
+
+    cap = int(os.environ.get("VERIF_CASE_TIMEOUT", getattr(mod, "CASE_TIMEOUT", 180)))
+    if getattr(mod, "ISOLATE", False) and not os.environ.get("VERIF_NO_ISOLATE"):
+        return _isolated_run(mod, case, cap)
+    old = signal.signal(signal.SIGALRM, _alarm)
+    signal.alarm(cap)
+    try:
+        return _safe_run(mod, case)
+    except CaseTimeout:
+        _note_timeout(mod, case)
+        return Result([], ["case-timeout"], False), None
+    finally:
+        signal.alarm(0)
+        signal.signal(signal.SIGALRM, old)
+
+
+def _safe_run(mod, case):
     try:
         res = mod.run_case(case)
         if not isinstance(res, Result):
